@@ -1009,10 +1009,10 @@ def iterDescendants : Nat → Nat → M (List Nat)
 written; an exception unwinds the stack with the exception passed to the generators, none of which catches it.
 Returns the exits, newest first (the order `ExitStack` runs them). -/
 def deleteEnter (t : Tables) (self : ARow) (elements : List Nat) : M (List PurgeExit) := do
-  -- a member that is the root of its own fragment file (`getparent()` is None): the known findings of C08/C09
-  -- (`…|member-is-fragment-root`) live here; outside the modelled domain
+  -- `_check_deletable(elements)` (first statement of `_delete`): a member that is the root of its own fragment file
+  -- (`getparent()` is None) is refused with NotImplementedError before anything is purged or removed
   for e in elements do
-    if (← parentOf e).isNone then raise (.unmodelled "deleting the root of a fragment file")
+    if (← parentOf e).isNone then hit "delete.fragment-root-refused"; raise .notImplemented
   -- all_elements = descendants (following fragment placeholders) + elements
   let mut descendants : List Nat := []
   for e in elements do descendants := descendants ++ (← iterDescendants 16 e)
@@ -1218,8 +1218,12 @@ def accInsert (row : ARow) (owner : Nat) (elems : List Nat) (index : Int) (value
 def directSet (t : Tables) (row : ARow) (owner : Nat) (values : List Val) : M Unit := do
   let keep := values.filterMap (fun v => match v with | .elem n => some n | _ => none)
   let lst ← directGet row owner
-  for v in lst do
-    if !keep.contains v then hit "set.delete-dropped"; deleteElems t row [v]
+  -- dropped = [v for v in list if id(v._element) not in keep]; self._check_deletable(dropped): refused up front
+  let dropped := lst.filter (fun v => !keep.contains v)
+  for v in dropped do
+    if (← parentOf v).isNone then hit "set.fragment-root-refused"; raise .notImplemented
+  for v in dropped do
+    hit "set.delete-dropped"; deleteElems t row [v]
   let rec go (i : Nat) : List Val → M Unit
     | [] => pure ()
     | v :: vs => do
